@@ -621,7 +621,8 @@ def gen_cases(rng, tier):
                "skip_init": rng.choice([3, 4]), "skip_period": rng.choice([1, 2, 3, 3]), "n_steps": n, "lookahead": 3,
                "ks": sorted(rng.sample(range(0, n + 1), 4 if quick else 6)),
                # an odd number of initial candidates: the generator holds a cached normal variate at the snapshot
-               "num_init_candidates": rng.choice([None, 5, 7, 33])}
+               "num_init_candidates": rng.choice([None, 5, 7, 33]),
+               "initial_scoring": rng.choice([None, None, "acq_func"])}
     # (c) dill twins of whole schedulers
     for i in range(44 if quick else 700):
         name = DILL_SCHEDS[i % len(DILL_SCHEDS)]
@@ -701,6 +702,8 @@ def run_gp_fit_twin(spec):
               debug_log=False)
     if spec.get("num_init_candidates"):
         kw["num_init_candidates"] = spec["num_init_candidates"]
+    if spec.get("initial_scoring"):
+        kw["initial_scoring"] = spec["initial_scoring"]
     a, b = rng.uniform(-0.5, 0.5), rng.uniform(0.5, 1.5)
 
     def step(sr, tid):
